@@ -10,6 +10,7 @@
 #include <gvt/fossil.h>
 
 #include <mm/msg_allocator.h>
+#include <verif/rsv.h>
 
 __thread unsigned fossil_epoch_current;
 /// The value of the last GVT, kept here for easier fossil collection operations
@@ -47,6 +48,12 @@ void fossil_lp_collect(struct lp_ctx *lp)
 	}
 
 	past_i = model_allocator_fossil_lp_collect(&lp->mm_state, past_i + 1);
+
+	RSV_EV(RSV_EV_FOSSIL_BEGIN, lp, past_i, array_count(proc_p->p_msgs), gvt);
+#ifdef ROOT_SIM_CORE_VERIF
+	for(array_count_t rsv_k = 0; rsv_k < past_i; ++rsv_k)
+		RSV_EV(RSV_EV_FOSSIL_ENTRY, array_get_at(proc_p->p_msgs, rsv_k), lp - lps, rsv_k, gvt);
+#endif
 
 	array_count_t k = past_i;
 	while(k--) {
